@@ -17,8 +17,10 @@ def run(tier):
         rule_tristate(rep, funcs, "C40")
         rule_restore(rep, funcs)
         rule_writeback(rep, funcs)
+        rule_output_before_failure(rep, funcs)
     rep.floor("instantiations of mfront::gb::integrate", 20)
     rep.floor("tri-state status variables", 15)
+    rep.floor("integrate instantiations examined for early output writes", 20)
     rep.floor("wrappers examined for write-back on failure", 10)
     rep.floor("write-back sites after the inner integration", 10)
     rep.floor("wrapper instantiations with pointer swaps", 15)
